@@ -109,6 +109,9 @@ static inline int pre_verif_sliding_window_axes(sv10_t idx, sv10_t dst_shape, sv
   if (!ok) return 0;
   for (unsigned long k = 0; k < CAP; k++) if (k < d) ok = ok && SV_AT(dst_shape, k) == SV_AT(src_shape, k) - SW_DED(window, axis, d, k);
   for (unsigned long k = 0; k < CAP + 2UL; k++) if (k < d + 2UL) ok = ok && SV_AT(idx, k) < SV_AT(dst_shape, k);
+  /* the same facts at the ghost position / the window positions, stated directly (implied by the two loops above; spares the solver a case split) */
+  ok = ok && SV_AT(idx, d) < ARR_AT(window, 0) && SV_AT(idx, d + 1UL) < ARR_AT(window, 1)
+          && IMPLIES(g < d, SV_AT(dst_shape, g) == SV_AT(src_shape, g) - SW_DED(window, axis, d, g) && SV_AT(idx, g) < SV_AT(dst_shape, g));
   return ok;
 }
 static inline int post_verif_sliding_window_axes(sv10_t idx, sv10_t dst_shape, sv_t src_shape, a2_t window, ai2_t axis, sv_t ret)
